@@ -9,6 +9,7 @@ Inductive structure (Appendix A-8):
                returns exactly the recorded values (so the hypothesis holds one level up);
   root         real Builder.cascade copies the root header values to ImageSet.data_min / data_max.
 """
+from vlib.core import soft_attr as core_u
 import numpy as _np
 import z3
 
@@ -315,8 +316,8 @@ def cases(tier):
 
 
 def check(run):
-    run.uses(tm.TileMerger.walk_callback, tm.TileMerger._get_min_max_of_children, tm.averaging_merger, ti.Image.save, tp.PyramidIO.update_image,
-             ti.Image.from_array, ti.ImageLoader.load_path, ti.ImageLoader._get_header_value_or_none,
+    run.uses(tm.TileMerger.walk_callback, core_u(tm.TileMerger, "_get_min_max_of_children"), tm.averaging_merger, ti.Image.save, tp.PyramidIO.update_image,
+             ti.Image.from_array, ti.ImageLoader.load_path, core_u(ti.ImageLoader, "_get_header_value_or_none"),
              tp.PyramidIO.write_image, tp.PyramidIO.read_image, tb.Builder.cascade)
     run.bound(children="16 presence patterns x every subset of present children carrying a recorded range", ranges="symbolic reals",
               pixels="symbolic (r, c) of the 256x256 tile for the bounding claims", modes="F32, F64, I16 FITS tiles")
